@@ -102,3 +102,10 @@ claim("C12", "property-based testing: SBML write/read round trip with a behaviou
       "textually identical up to the model id; the re-imported model must match the original in species, parameters, "
       "stoichiometry, all four rate forms at sampled states, seeded delay draws, and rule effects.",
       _TB + "; the guarded probes for the stochastic rate forms", "DESIGN.md section 4 C12, section 3.5")
+
+claim("C18", "property-based testing: generated smooth networks, differential vs high-precision derivatives with scheme-specific Taylor bounds (Hypothesis)",
+      "6k / 60k generated (network, state, parameter, scheme) cases: every Jacobian / sensitivity entry must lie within "
+      "the Taylor remainder bound of the requested difference scheme around the 40-digit derivative of the reference "
+      "rate equations (the observed error reaches > 30% of the bound in a third of the cases, so a wrong stencil, step, "
+      "orientation or scheme label is visible); parameter dictionary unchanged; repeatable.",
+      _TB + "; mpmath's numerical differentiation at 40 digits", "DESIGN.md section 4 C18")
